@@ -16,7 +16,8 @@ func corrC16(r *Run) {
 	r.Import("Model.ConnRun")
 	r.PerShard(10)
 	r.Rule = "inbound histories of 3..14 frames mixing unsolicited PDUs of every registered type, responses to 0..3 outstanding Submit calls (Write held or returned), " +
-		"repeated responses, undecodable bodies behind an intact header (positive and non-positive sequence numbers), ended by nothing / EOF / a fatal frame; " +
+		"repeated responses, PDUs reusing the sequence number of a Submit that gave up through its own context, undecodable bodies behind an intact header " +
+		"(positive and non-positive sequence numbers), frames over 4096 octets of which only a prefix is decoded (undecodable; non-zero status with a body), ended by nothing / EOF / a fatal frame; " +
 		"frames made readable singly or several at once, each in one of six fragmentation classes or split over two forced events; " +
 		"fast (always receiving) and slow (receiving on grant) consumer; non-trivial = history with at least one undecodable frame followed by a deliverable PDU; distinct by event list"
 	ts := pduTypes()
@@ -50,6 +51,7 @@ func c16Scenario(r *Run, ts []pduType, idx int) {
 		}
 	}
 	answered := map[int]bool{}
+	cancelled := map[int]bool{}
 	var wantApp []Delivery
 	var wantNack []int32
 	badThenGood := false
@@ -80,7 +82,13 @@ func c16Scenario(r *Run, ts []pduType, idx int) {
 	n := 3 + rng.Intn(12)
 	for i := 0; i < n && w.Stuck == ""; i++ {
 		var f []byte
-		switch k := rng.Intn(10); {
+		k := rng.Intn(12)
+		if idx%8 == 1 && i == 0 {
+			k = 7
+		} else if idx%8 == 2 && i == 0 {
+			k = 8
+		}
+		switch {
 		case k < 4:
 			f = genUnsolicited(rng, ts, fresh())
 			_, id, s := classifyFrame(f)
@@ -121,6 +129,42 @@ func c16Scenario(r *Run, ts []pduType, idx int) {
 			_, id, s := classifyFrame(f)
 			wantApp = append(wantApp, Delivery{id, s})
 			hist["item/repeated-response"]++
+		case k < 8:
+			// a Submit gives up through its own context; later the peer uses that sequence number for a PDU of
+			// its own: no request is outstanding under it, so it is an ordinary unsolicited PDU
+			var open []*Call
+			for _, c := range reqs {
+				if !answered[c.ID] {
+					open = append(open, c)
+				}
+			}
+			if len(open) == 0 {
+				continue
+			}
+			flush()
+			c := open[rng.Intn(len(open))]
+			answered[c.ID], cancelled[c.ID] = true, true
+			w.CancelCtx(c)
+			if w.Held(c) {
+				w.Release(c)
+			}
+			f = genUnsolicited(rng, ts, c.Seq)
+			_, id, s := classifyFrame(f)
+			wantApp = append(wantApp, Delivery{id, s})
+			hist["item/sequence-of-a-cancelled-request-reused"]++
+		case k < 9:
+			// longer than the decoder's 4096-octet buffers, decoded only in part
+			s := fresh()
+			if rng.Bool() {
+				f = genOversizeFrame(rng, s, true)
+				wantNack = append(wantNack, s)
+				sawBad = true
+				hist["item/undecodable-over-4096"]++
+			} else {
+				f = genOversizeFrame(rng, s, false)
+				wantApp = append(wantApp, Delivery{5, s})
+				hist["item/status-with-body-over-4096"]++
+			}
 		default:
 			s := fresh()
 			if rng.Intn(5) == 0 {
@@ -226,6 +270,10 @@ func c16Scenario(r *Run, ts []pduType, idx int) {
 	}
 	for _, c := range reqs {
 		switch {
+		case cancelled[c.ID]:
+			if !(w.Returned(c) && c.Err != nil) {
+				r.Fail("dispatch/cancelled", "a Submit whose own context ended did not return an error", input, c.Class(), "err")
+			}
 		case answered[c.ID] && !(w.Returned(c) && c.Err == nil && pdu.ReadSequence(c.Resp) == c.Seq):
 			r.Fail("dispatch/response", "an answered Submit did not return its response", input, c.Class(), fmt.Sprintf("ok with sequence %d", c.Seq))
 		case !answered[c.ID] && end == 0 && w.Returned(c):
